@@ -164,6 +164,16 @@ var sampleTexts = []string{
 	"",
 	"‍‌­͏",
 	"ab\tcd ef",
+	// stress texts for the per-script shapers: long mark stacks, reordering, jamo composition
+	"\u0628\u0654\u0658\u06dc\u06e7\u06e8\u0655\u06e3 \u0644\u0651\u064e\u0670\u0653\u0654\u06e1\u06ed",   // Arabic: 5+ modifier combining marks on one base
+	"\u05e9\u05c1\u05b8\u05bc\u05bd\u0591\u05a3 \u05d1\u05b0\u05bc\u05e8\u05b5\u05d0",                     // Hebrew points and cantillation
+	"\u0915\u094d\u0937\u094d\u092e\u094d\u092f\u093f\u0902\u0901 \u0930\u094d\u0915\u093f",               // Devanagari conjunct + reph + matras
+	"\u0e01\u0e49\u0e33\u0e4d\u0e48\u0e38 \u0e1b\u0e35\u0e48\u0e4c\u0e47",                                 // Thai stacked marks and SARA AM
+	"\u1100\u1161\u11a8\u1112\u1161\u11ab \u1100\u1100\u1161",                                             // Hangul conjoining jamo
+	"\u1000\u103c\u103d\u1031\u102c\u1037\u103a \u1004\u103a\u1039\u1000",                                 // Myanmar medials, kinzi
+	"\u1780\u17d2\u179a\u17c4\u17c7 \u179f\u17d2\u178f\u17d2\u179a\u17b8",                                 // Khmer coeng stacks
+	"\u0f66\u0f92\u0fb2\u0f74\u0f56\u0f0b\u0f40\u0fb1\u0f72",                                              // Tibetan subjoined stacks
+	"a\u0300\u0301\u0302\u0303\u0304\u0305\u0306\u0307\u0308\u0309\u030a\u030b\u030c\u0323\u0324\u0325 z", // sixteen marks on one Latin base
 }
 
 // genText draws a text: a sample, a random string over the runes of a face, or a mix.
